@@ -222,37 +222,8 @@ def check(db, rep):
         else:
             r1.violation(inst, '%s:%d' % (f.file, f.line), 'a path through %s does not clear the error log: errors of an earlier input are reported for this one' % name.split('::')[-1])
 
-    # lexers
-    for lcls, icls in LEXERS:
-        short = lcls.split('::')[-1]
-        si = db.fn(lcls + '::SetInput')
-        op = db.fn(lcls + '::operator()')
-        irec = db.record(icls)
-        ifields = [x['name'] for x in irec['fields']]
-        lexfn = db.fn(icls + '::lex', pick=lambda x: not x.rec['params'])
-        written = {ev[0] for ev in M.direct_events(lexfn) if ev[0] in ifields}
-        zeroed = set()
-        rebinds = False
-        for n in si.walk():
-            if n['k'] in ('BinaryOperator',) and n.get('op') == '=':
-                l = si.strip(si.children(n)[0])
-                if l['k'] == 'MemberExpr' and l.get('fcls') == icls:
-                    zeroed.add(l['member'])
-            if n['k'] == 'CXXMemberCallExpr' and (n.get('cs') or '').split('::')[-1] == 'in' and n.get('args'):
-                rebinds = True
-        inst = short + '::impl'
-        if not rebinds:
-            r1.violation(inst, '%s:%d' % (si.file, si.line), 'SetInput does not rebind the scanner input (impl->in(input))')
-        elif written - zeroed:
-            r1.violation(inst, '%s:%d' % (si.file, si.line), 'scanner members %s are modified by lex() but not re-initialised by SetInput: positions of the next input depend on the previous one' % sorted(written - zeroed))
-        else:
-            r1.ok(inst, 'SetInput rebinds the input and re-initialises %s' % (sorted(written) or 'no user members'), '%s:%d' % (si.file, si.line))
-        if any(c.get('cs') == lcls + '::SetInput' for c in op.calls()):
-            r2.ok(short, 'operator() goes through SetInput', '%s:%d' % (op.file, op.line))
-        else:
-            r2.violation(short, '%s:%d' % (op.file, op.line), 'operator()(input) does not call SetInput')
+    lexer_reset_rule(db, r1, r2, M)
 
-    # r3 statics
     r3 = rep.rule('r3', 'STATICS: every mutable object with static storage is reset before each use by its single owner, never written after initialisation, or a listed process-wide singleton', 8)
     seen_owners = set()
     for s in db.statics:
@@ -410,3 +381,41 @@ def _singleton_writers(db, r3):
                         r3.ok(inst, 'listed writer of the process-wide text configuration (sets the same constant on every call)', f.loc(n), nontrivial=False)
                     else:
                         r3.violation(inst, f.loc(n), 'new writer of process-wide state TextEnvironment::%s: later calls in the same process see it' % fld)
+
+def lexer_reset_rule(db, r1, r2, M):
+    """each lexer entry point (SetInput, operator()) rebinds the scanner input and re-initialises every scanner member lex() modifies"""
+    # lexers
+    for lcls, icls in LEXERS:
+        short = lcls.split('::')[-1]
+        si = db.fn(lcls + '::SetInput')
+        op = db.fn(lcls + '::operator()')
+        irec = db.record(icls)
+        ifields = [x['name'] for x in irec['fields']]
+        lexfn = db.fn(icls + '::lex', pick=lambda x: not x.rec['params'])
+        written = {ev[0] for ev in M.direct_events(lexfn) if ev[0] in ifields}
+        def resets(fn_):
+            z, rb = set(), False
+            for n in fn_.walk():
+                if n['k'] in ('BinaryOperator',) and n.get('op') == '=':
+                    l = fn_.strip(fn_.children(n)[0])
+                    if l['k'] == 'MemberExpr' and l.get('fcls') == icls:
+                        z.add(l['member'])
+                if n['k'] == 'CXXMemberCallExpr' and (n.get('cs') or '').split('::')[-1] == 'in' and n.get('args'):
+                    rb = True
+            return z, rb
+        for entry in (si, op):
+            zeroed, rebinds = resets(entry)
+            if any(c.get('cs') == lcls + '::SetInput' for c in entry.calls()) and entry is not si:
+                z2, rb2 = resets(si)
+                zeroed |= z2
+                rebinds = rebinds or rb2
+            inst = short + '::impl' if entry is si else short + '::operator()'
+            rule_ = r1 if entry is si else r2
+            if not rebinds:
+                rule_.violation(inst, '%s:%d' % (entry.file, entry.line), '%s does not rebind the scanner input (impl->in(input))' % entry.name.split('::')[-1])
+            elif written - zeroed:
+                rule_.violation(inst, '%s:%d' % (entry.file, entry.line), 'scanner members %s are modified by lex() but not re-initialised by %s (directly or through SetInput): positions of the next input depend on the previous one' % (sorted(written - zeroed), entry.name.split('::')[-1]))
+            else:
+                rule_.ok(inst, '%s rebinds the input and re-initialises %s' % (entry.name.split('::')[-1], sorted(written) or 'no user members'), '%s:%d' % (entry.file, entry.line))
+
+    # r3 statics
